@@ -280,6 +280,23 @@ func openAndValidateWALFile(filePath string) (*os.File, error) {
 	return f, nil
 }
 
+// A block cannot be longer than what is left of the file: a damaged length field must not make the
+// reader allocate (and clear) up to 4 GiB before it notices.
+func checkBlockFits(fd *os.File, blockSize uint32) error {
+	fInfo, err := fd.Stat()
+	if err != nil {
+		return err
+	}
+	pos, err := fd.Seek(0, io.SeekCurrent)
+	if err != nil {
+		return err
+	}
+	if int64(blockSize) > fInfo.Size()-pos {
+		return fmt.Errorf("block size %d exceeds the %d bytes left in the file", blockSize, fInfo.Size()-pos)
+	}
+	return nil
+}
+
 func (it *DPWalIterator) Next() (*WalDatapoint, error) {
 	if it.currentIndex < len(it.readDps) {
 		it.currentIndex++
@@ -298,6 +315,10 @@ func (it *DPWalIterator) Next() (*WalDatapoint, error) {
 	if blockSize < Uint32Size { // Checking if block size is less than checksum size (4 bytes)
 		log.Errorf("WalIterator Next: invalid block size (%d), less than checksum size", blockSize)
 		return nil, errors.New("invalid block size")
+	}
+	if err := checkBlockFits(it.fd, blockSize); err != nil {
+		log.Errorf("WalIterator Next: invalid block size in file %s: %v", it.fd.Name(), err)
+		return nil, err
 	}
 
 	var checksum uint32
@@ -494,6 +515,10 @@ func (it *MNameWalIterator) Next() (*string, error) {
 		log.Errorf("MNameWalIterator Next: invalid block size (%d), less than checksum size", blockSize)
 		return nil, errors.New("invalid block size")
 	}
+	if err := checkBlockFits(it.fd, blockSize); err != nil {
+		log.Errorf("MNameWalIterator Next: invalid block size in file %s: %v", it.fd.Name(), err)
+		return nil, err
+	}
 
 	var checksum uint32
 	err = binary.Read(it.fd, binary.LittleEndian, &checksum)
@@ -625,6 +650,10 @@ func (it *MMetaEntryIterator) Next() (*structs.MetricsMeta, error) {
 	if blockSize < Uint32Size {
 		log.Errorf("MetricsMetaWalReader Next: invalid block size (%d), less than checksum size", blockSize)
 		return nil, fmt.Errorf("invalid block size")
+	}
+	if err := checkBlockFits(it.fd, blockSize); err != nil {
+		log.Errorf("MetricsMetaWalReader Next: invalid block size in file %s: %v", it.fd.Name(), err)
+		return nil, err
 	}
 
 	var checksum uint32
